@@ -65,6 +65,7 @@ def run(rep, tier, seed, budget):
 
     # (a) step lemmas over unbounded integers -------------------------------------------------
     lemmas.state_lemmas(ctx, rep, equalities=False)
+    lemmas.crosshair_state_lemmas(ctx, rep)
     lemmas.ring_step(ctx, rep)
     lemmas.derive_step(ctx, rep)
     lemmas.ring_label_step(ctx, rep, nmax=120 if quick else 400, witness=lambda n: {
